@@ -246,7 +246,13 @@ class Glue:
                 mv = _show(self.s.min_value({"named": payload}))
                 mr += f"        \"{variant}\" => build_response(\"{variant}\", V::parse(\"{mv}\").as_ref()),\n"
         mr += "        _ => None,\n    }\n}\n"
-        ad = mr
+        # `Default::default()` of every response payload that has one, dumped (the values a caller gets for free)
+        dv = "pub fn default_response_value(variant: &str) -> Option<V> {\n    match variant {\n"
+        for variant, payload in tables["response_variants"]:
+            if payload is not None and self.s.res({"named": payload}).get("rust", {}).get("default"):
+                dv += (f"        \"{variant}\" => Some(dump_{mangle(payload)}(&<{rust_path(payload)} as Default>::default())),\n")
+        dv += "        _ => None,\n    }\n}\n"
+        ad = mr + dv
         meth = {"MakeCredential": "make_credential", "GetAssertion": "get_assertion", "ClientPin": "client_pin",
                 "CredentialManagement": "credential_management", "LargeBlobs": "large_blobs"}
         for variant, payload in tables["request_variants"]:
